@@ -1599,9 +1599,9 @@ extern int32_t matrixSslEncodeClientHello(
 
 # ifdef USE_CLIENT_SIDE_SSL
 extern int32 matrixSslGetSessionId(ssl_t *ssl, sslSessionId_t *sessionId);
-extern void psCopyHelloExtension(tlsExtension_t *destination,
+extern int32_t psCopyHelloExtension(tlsExtension_t *destination,
         const tlsExtension_t *source);
-extern void psAddUserExtToSession(ssl_t *ssl,
+extern int32_t psAddUserExtToSession(ssl_t *ssl,
         const tlsExtension_t *ext);
 # endif /* USE_CLIENT_SIDE_SSL */
 
